@@ -307,9 +307,11 @@ def check(prog: Program, tier: str) -> Result:
                                    f"a list of lines (indexes 0..n-1) is indexed by an expression that can be an ast line number as it is (1..n; bindings count from {sorted(bs)}): "
                                    "it reads the line AFTER the one the number names, and past the end when that is the last line (IndexError)")
     _r13_6(prog, res, ret_units)
+    _r13_7(prog, res)
+    _r13_8(prog, res)
     _r13_3(prog, res)
     _r13_4(prog, res)
-    res.floors.update({"R13.1": 3, "R13.2": 1, "R13.3": 4, "R13.4": 3, "R13.5": 2, "R13.6": 1})
+    res.floors.update({"R13.1": 3, "R13.2": 1, "R13.3": 4, "R13.4": 3, "R13.5": 2, "R13.7": 2, "R13.8": 1})
     res.analysed.update({"position_expressions": n_expr, "functions_returning_positions": {f"{k[0]}.{k[1]}": v for k, v in sorted(ret_units.items())}})
     return res
 
@@ -428,7 +430,87 @@ def _r13_6(prog: Program, res: Result, ret_units) -> None:
             res.decide(ok, "R13.6", fn.loc(x), fn.fq, short(x, 60),
                        f"read only when {pos} > 0" if ok else
                        f"at {pos} == 0 this reads index -1, the LAST character of the text: the span of a definition at offset 0 can start at -1")
-    # (no instance: the vacuity floor of R13.6 stops the run)
+    if n == 0:
+        # the only peek of the tree was replaced by a search (fix of R13.8); the rule stays armed, its positive example is the
+        # self-test variant `peek-in-front-of-offset-zero`, which puts an unguarded peek back and must be reported
+        res.ok("R13.6", "pyrefact/core.py:0", "core", "text[offset - 1] # peeks at the character in front of an offset", "none in the tree", trivial=True)
+
+
+# ------------------------------------------------------------------------------------------------ R13.7 / R13.8
+def _r13_7(prog: Program, res: Result) -> None:
+    """The span of a node is what its positions say.  get_charnos also TRIMS it by what the text looks like (a blank at either end
+    of the slice is cut off).  For a string constant the blanks at the ends are part of the node: the literal pieces of an
+    f-string (`f"Saved to {path}"`, python 3.12 gives them exact positions) lost them, a piece of blanks only got an inverted
+    span.  Every adjustment of the span that is conditioned on a CHARACTER of the slice is reached only when the node was
+    tested not to be an ast.Constant."""
+    from ..pathcond import PathAnalysis, plain
+    fn = prog.funcs.get(("core", "get_charnos"))
+    if fn is None:
+        raise AnalysisError("anchor core.get_charnos not found")
+    node_p = fn.posparams[0]
+    pa = PathAnalysis(prog, fn)
+    n = 0
+    for a in walk_own(fn.node):
+        if not (isinstance(a, ast.AugAssign) and isinstance(a.target, ast.Name)):
+            continue
+        worlds = pa.worlds_at(a)
+        if not worlds:
+            continue
+        # conditioned on a character of the slice: a fact `eq(' ', X[0])` / `eq(' ', X[-1])` where X is a slice of the text
+        def char_test(f) -> bool:
+            t = plain(f[1]).replace('"', "'") if f[0] == "lit" else ""
+            return f[0] == "lit" and f[2] and t.startswith("eq(' ',") and (t.endswith("[0])") or t.endswith("[-1])"))
+        if not all(any(char_test(f) for f in w.facts) for w in worlds):
+            continue
+        n += 1
+        ok = all(any(f[0] == "lit" and not f[2] and plain(f[1]).startswith(f"isinstance({node_p},") and "ast.Constant" in plain(f[1]) for f in w.facts) for w in worlds)
+        res.decide(ok, "R13.7", fn.loc(a), fn.fq, f"{norm(a)} # the span is trimmed by a blank at its end",
+                   "never for a constant: the blanks at the ends of a string are part of it" if ok else
+                   "the span is cut at a blank at its end whatever the node is: the literal pieces of an f-string (`f'Saved to {p}'`) lose their blanks, a piece of "
+                   "blanks only gets start > end")
+    if n == 0:
+        res.ok("R13.7", fn.loc(), fn.fq, "span adjustments conditioned on a character of the slice", "none", trivial=True)
+
+
+def _r13_8(prog: Program, res: Result) -> None:
+    """A decorated definition starts at the `@` of its first decorator.  The tree only knows where the decorator EXPRESSION
+    starts; between the `@` and it there may be blanks, an opening bracket, a line continuation (`@ foo`, `@(foo)`).  Where
+    get_charnos moves the start in front of the first decorator, the new start comes from a search, anchored at the old
+    start, of a pattern that accepts all of these and needs the `@` (decided by running the constant pattern on the cases)."""
+    import re as _re
+    fn = prog.funcs.get(("core", "get_charnos"))
+    if fn is None:
+        raise AnalysisError("anchor core.get_charnos not found")
+    searches = [c for c in prog.calls_in(fn) if norm(c.func) in ("re.search", "re.match", "re.fullmatch") and len(c.args) >= 2
+                and isinstance(c.args[0], ast.Constant) and isinstance(c.args[0].value, str) and "@" in c.args[0].value]
+    peeks = [x for x in walk_own(fn.node) if isinstance(x, ast.Compare) and any(isinstance(k, ast.Constant) and k.value == "@" for k in ast.walk(x))]
+    if not searches and not peeks:
+        res.bad("R13.8", fn.loc(), fn.fq, "the `@` of the first decorator", "the start of a decorated definition is never moved to the `@`: the span starts at the decorator expression")
+        return
+    for x in peeks:
+        res.bad("R13.8", fn.loc(x), fn.fq, f"{short(x, 60)} # looks for the @ in one place",
+                "the `@` is looked for in exactly one position in front of the decorator expression: `@ foo`, `@(foo)` and `@\\\\<newline>foo` start at `foo`")
+    for c in searches:
+        pat = c.args[0].value
+        cases = {"@": 0, "@ ": 0, "@(": 0, "@ (": 0, "@\\\n": 0, "x = 1\n@  ": 6}
+        problems = []
+        try:
+            rx = _re.compile(pat)
+            for text, want in cases.items():
+                m = rx.search(text)
+                if m is None or m.start() != want or m.end() != len(text):
+                    problems.append(repr(text))
+            for text in ("foo ", "(", "@ foo "):
+                if rx.search(text) is not None:
+                    problems.append(f"matches {text!r}")
+        except _re.error as error:
+            problems.append(str(error))
+        anchored = norm(c.args[1]).replace(" ", "").endswith("[:start_charno]") or "[:" in norm(c.args[1])
+        ok = not problems and anchored
+        res.decide(ok, "R13.8", fn.loc(c), fn.fq, f"{short(c, 60)} # search for the @ of the first decorator",
+                   "accepts blanks, brackets and line continuations between the `@` and the decorator, ends at the decorator" if ok else
+                   f"the pattern {pat!r} does not find the `@` in all the ways it can be written: {problems[:4]}")
+
 
 
 def _r13_4(prog: Program, res: Result) -> None:
@@ -497,7 +579,10 @@ def _r13_4(prog: Program, res: Result) -> None:
 from ..selftest import Variant  # noqa: E402
 
 VARIANTS: List[Variant] = [
-    Variant("peek-in-front-of-offset-zero", "FIRE", "core", "        start_charno > 0  # At the start of the source there is nothing in front, -1 is its last character\n        and source[start_charno - 1] == \"@\"", "        source[start_charno - 1] == \"@\"", "R13.6"),
+    Variant("peek-in-front-of-offset-zero", "FIRE", "core", "        at_sign = re.search(r\"@[\\s\\\\(]*\\Z\", source[:start_charno])\n        if at_sign:\n            start_charno = at_sign.start()\n", "        if source[start_charno - 1] == \"@\":\n            start_charno -= 1\n", "R13.6"),
+    Variant("at-sign-directly-in-front-only", "FIRE", "core", "        at_sign = re.search(r\"@[\\s\\\\(]*\\Z\", source[:start_charno])\n", "        at_sign = re.search(r\"@\\Z\", source[:start_charno])\n", "R13.8"),
+    Variant("string-pieces-trimmed-again", "FIRE", "core", "    if code and code[0] == \" \" and not isinstance(node, ast.Constant):", "    if code and code[0] == \" \":", "R13.7"),
+    Variant("at-sign-pattern-with-character-class-spelled-out", "SILENT", "core", "        at_sign = re.search(r\"@[\\s\\\\(]*\\Z\", source[:start_charno])\n", "        at_sign = re.search(r\"@[ \\t\\r\\n\\f\\v\\\\(]*\\Z\", source[:start_charno])\n", "R13.8"),
     Variant("line-list-indexed-by-line-number-unbounded", "FIRE", "fixes",
             "            1 < safe_position_lineno < len(source_lines)  # The line below the last one is not indented\n", "            1 < safe_position_lineno\n", "R13.5"),
     Variant("line-list-indexed-by-line-number-minus-one", "SILENT", "fixes",
